@@ -22,7 +22,7 @@ def describe(tier):
     b = BOUNDS[tier]
     return dict(
         rule='Built-in tables: every key of Config({syntax: s}).snippets for s in html, xsl, pug x contexts [., .>k, p>., p>.+q, (.)*2] and, '
-             'for simple definitions name[attrs]/?, [..x, .[data-k=v], .{t}, .*2>k, ./] x {default, reverseAttributes}: '
+             'for simple definitions name[attrs]/?, [..x, .[data-k=v], .{t}, .*2>k, ./] x {default, reverseAttributes, a call config that restates one variable and one option}: '
              'expand(C[alias]) == expand(C[(definition)]). User tables: all %d^3 tables {ka, kb, kc} -> definitions %s x start names %s: '
              'terminates, resolve nesting <= 3 (+1 for the call that hits the guard / a non-snippet), alias == definition when acyclic, and for every table '
              '(cyclic ones too) expand(A+B) = expand(A) expand(B), expand(p>A+B) = <p>..</p> for every pair of names. '
@@ -183,8 +183,15 @@ def check_user(table, start):
     return bad, d.max
 
 
+# a call config that restates one variable and one option only: definitions are still resolved with the merged tables
+PARTIAL = {'variables': {'lang': 'de'}, 'options': {'output.tagCase': 'upper'}}
+
+
 def check_builtin(syn, key, D, ctx_name, a, dd, rev):
-    cfg = {'syntax': syn, 'options': {'output.reverseAttributes': True}} if rev else {'syntax': syn}
+    if rev == 'partial':
+        cfg = dict(PARTIAL, syntax=syn)
+    else:
+        cfg = {'syntax': syn, 'options': {'output.reverseAttributes': True}} if rev else {'syntax': syn}
     r1 = ex(a, cfg)
     r2 = ex(dd, dict(cfg))
     if isinstance(r1, tuple):
@@ -215,10 +222,10 @@ def run_shard(shard, ctx, tier):
         table = Config({'syntax': syn}).snippets
         for key in shard['keys']:
             D = table[key]
-            for rev in (False, True):
+            for rev in (False, True, 'partial'):
                 pairs = list(builtin_pairs(key, D))
                 if SIMPLE.match(D):
-                    pairs += list(simple_pairs(key, D, rev))
+                    pairs += list(simple_pairs(key, D, rev is True))
                 else:
                     ctx.skip('attribute/text/repeater extras on a multi-element or text definition')
                 if TEXT_TAIL.search(D):
@@ -271,6 +278,8 @@ def repro(case):
     if case['kind'] == 'user':
         return 'from emmet import expand\nprint(expand(%r, {"snippets": %r}))\n' % (case['start'], case['table'])
     cfg = {'syntax': case['syntax']}
-    if case['reverse']:
+    if case['reverse'] == 'partial':
+        cfg = dict(PARTIAL, syntax=case['syntax'])
+    elif case['reverse']:
         cfg['options'] = {'output.reverseAttributes': True}
     return 'from emmet import expand\nprint(expand(%r, %r))\nprint(expand(%r, %r))  # must be equal\n' % (case['alias'], cfg, case['definition'], cfg)
